@@ -292,3 +292,11 @@ Print Assumptions C12_chans_matcher_sound.
 Print Assumptions C12_chans_matcher_rejections_genuine.
 Print Assumptions C12_stream_matcher_sound.
 Print Assumptions C12_stream_matcher_rejections_genuine.
+
+(* Tie to the source: the Go functions the model transcribes still contain exactly the synchronisation operations
+   (select arms, channel operations, goroutine starts, timer/context/sync calls) the model accounts for.
+   Generated/Census.v is re-extracted from the Go source on every run (tools/gofacts/census.go). *)
+From Juniper Require Translated.CensusC12.
+Theorem C12_source_census : Translated.CensusC12.census_expected_C12.
+Proof. exact Translated.CensusC12.census_C12_ok. Qed.
+Print Assumptions C12_source_census.
